@@ -84,7 +84,7 @@ func RoutingFile(baseIdx int, sub, pkg, goImport, goName string, lit *int, full 
 	f := &spec.File{Path: strings.ReplaceAll(pkg, ".", "/") + "/routes.proto", Package: pkg, GoImport: goImport, GoName: goName}
 	svc := &spec.Service{Name: "Route" + strings.Title(bv.Label) + strings.Title(sub) + "Service", BasePath: bv.Val}
 	f.Services = []*spec.Service{svc}
-	f.Messages = append(f.Messages, &spec.Message{Name: "RouteResp", Fields: []*spec.Field{spec.F("echo", 1, spec.String), spec.F("n", 2, spec.Int64)}})
+	f.Messages = append(f.Messages, &spec.Message{Name: "RouteResp", Fields: []*spec.Field{spec.F("echo", 1, spec.String), spec.F("num_val", 2, spec.Int64)}})
 	var cases []*RouteCase
 	nameIdx := 0
 	add := func(cfg, verb, shapeLabel string, tmpl string, vars []string, hasVerb bool, leadingSlash bool) {
